@@ -34,6 +34,8 @@ type child struct {
 	exited  chan struct{}
 	starts  int
 	crashes []string // stderr of each crash
+	leaked  int      // transport goroutines known to have been left behind in this incarnation
+	leaks   int      // number of confirmed leaks (after two the long waits are dropped)
 }
 
 type lockedBuf struct {
@@ -83,6 +85,7 @@ func (c *child) alive() bool {
 
 func (c *child) start() {
 	c.starts++
+	c.leaked = 0
 	cmd := exec.Command(c.bin)
 	cmd.Env = append(os.Environ(), "GORACE=halt_on_error=0 log_path="+filepath.Join(c.dir, "race"))
 	stdin, _ := cmd.StdinPipe()
@@ -155,13 +158,22 @@ func (c *child) died(grace time.Duration) (bool, string) {
 var ctl = &http.Client{Timeout: 20 * time.Second, Transport: &http.Transport{DisableKeepAlives: true}}
 
 type srvState struct {
-	Active   int    `json:"active"`
-	Found    bool   `json:"found"`
-	Entered  bool   `json:"entered"`
-	Returned bool   `json:"returned"`
-	Produced []int  `json:"produced"`
-	TG       int    `json:"tg"`
-	Which    string `json:"tg_which"`
+	Active   int      `json:"active"`
+	Found    bool     `json:"found"`
+	Entered  bool     `json:"entered"`
+	Returned bool     `json:"returned"`
+	Produced []int    `json:"produced"`
+	TG       int      `json:"tg"`
+	Which    string   `json:"tg_which"`
+	Gate     *gateObs `json:"gate"`
+}
+
+// gateObs is what the gate writer of c12srv/gate.go saw (Mechanism A).
+type gateObs struct {
+	Overlaps    []string `json:"overlaps"`
+	AfterReturn []string `json:"after_return"`
+	Held        bool     `json:"held"`
+	Met         bool     `json:"met"`
 }
 
 func (c *child) state(id string) (*srvState, error) {
@@ -224,6 +236,7 @@ type Scenario struct {
 	CutAt      int     `json:"cut_at"`   // >= 0: the client closes the connection after this many response bytes
 	ErrMode    bool    `json:"err_mode"` // invalid document: the stream carries one errors-only payload
 	Gated      bool    `json:"gated"`    // delays of -1 are released by the driver once the previous payload arrived
+	Hold       string  `json:"hold"`     // Mechanism A: which call the gate writer holds open ("" = plain endpoint)
 
 	Status    int      `json:"status"`
 	CT        string   `json:"content_type"`
@@ -240,6 +253,7 @@ type Scenario struct {
 	Direct    []string `json:"direct_findings,omitempty"` // violations decided without TLC: key|detail
 	ReadErr   string   `json:"read_error,omitempty"`
 	WallMs    float64  `json:"wall_ms"`
+	Gate      *gateObs `json:"gate,omitempty"`
 	Verdict   string   `json:"verdict,omitempty"` // strict | late-ping | splice | late-ping+splice | unexplained
 }
 
@@ -260,8 +274,13 @@ func (c *child) run(s *Scenario) {
 		Sizes      []int   `json:"sizes"`
 		DelaysNs   []int64 `json:"delays_ns"`
 		EndDelayNs int64   `json:"end_delay_ns"`
+		Hold       string  `json:"hold"`
 	}
-	sj, _ := json.Marshal(wire{s.ID, s.N, s.Sizes, s.DelaysNs, s.EndDelayNs})
+	sj, _ := json.Marshal(wire{s.ID, s.N, s.Sizes, s.DelaysNs, s.EndDelayNs, s.Hold})
+	ep := "g"
+	if s.Hold != "" {
+		ep = "h"
+	}
 	q, acc := `{"query":"subscription { s }"}`, "text/event-stream"
 	if s.Kind == "mm" {
 		q, acc = `{"query":"query { q }"}`, "multipart/mixed"
@@ -278,7 +297,7 @@ func (c *child) run(s *Scenario) {
 		vlib.Infra("cannot connect to the server child: %v", err)
 	}
 	defer conn.Close()
-	fmt.Fprintf(conn, "POST /g/%s/%d HTTP/1.1\r\nHost: c12\r\nConnection: close\r\nAccept: %s\r\nContent-Type: application/json\r\nX-Verif-Scn: %s\r\nContent-Length: %d\r\n\r\n%s",
+	fmt.Fprintf(conn, "POST /"+ep+"/%s/%d HTTP/1.1\r\nHost: c12\r\nConnection: close\r\nAccept: %s\r\nContent-Type: application/json\r\nX-Verif-Scn: %s\r\nContent-Length: %d\r\n\r\n%s",
 		s.Kind, s.IntervalNs, acc, sj, len(q), q)
 	_ = conn.SetReadDeadline(time.Now().Add(60 * time.Second))
 
@@ -348,9 +367,15 @@ func (c *child) run(s *Scenario) {
 
 	// server-side observations; the handler must end (poll, then confirm)
 	if !s.Crashed {
-		st := c.await(s, 15*time.Second)
-		if st != nil && (!st.Returned || st.TG > 0) {
-			st = c.await(s, 45*time.Second) // second, longer look before anything is concluded
+		first, second := 15*time.Second, 45*time.Second
+		if c.leaks >= 2 {
+			// this child keeps leaving goroutines behind (already reported twice after the
+			// full waits): do not spend a minute on every further stream
+			first, second = 3*time.Second, 0
+		}
+		st := c.await(s, first)
+		if st != nil && (!st.Returned || st.TG > c.leaked) && second > 0 {
+			st = c.await(s, second) // second, longer look before anything is concluded
 		}
 		if st == nil {
 			if d, se := c.died(2 * time.Second); d {
@@ -365,10 +390,15 @@ func (c *child) run(s *Scenario) {
 			}
 			if st.Entered && !st.Returned {
 				s.direct(s.Kind+":handler-did-not-return", fmt.Sprintf("60 s after the client finished reading (cut_at=%d) the transport's Do has not returned; goroutines: %s", s.CutAt, st.Which))
-			} else if st.TG > 0 {
+			} else if st.TG > c.leaked {
 				s.Lingering = st.Which
-				s.direct(s.Kind+":goroutine-left-behind{"+st.Which+"}", fmt.Sprintf("60 s after the handler returned %d transport goroutine(s) are still alive: %s", st.TG, st.Which))
+				if c.leaks < 2 {
+					s.direct(s.Kind+":goroutine-left-behind", fmt.Sprintf("60 s after the handler returned %d transport goroutine(s) are still alive: %s", st.TG, st.Which))
+				}
+				c.leaked = st.TG
+				c.leaks++
 			}
+			s.Gate = st.Gate
 			c.forget(s.ID)
 		}
 	}
@@ -448,11 +478,11 @@ func (c *child) await(s *Scenario, total time.Duration) *srvState {
 		st, err := c.state(s.ID)
 		if err == nil {
 			last = st
-			if st.Returned && st.TG == 0 {
+			if st.Returned && st.TG <= c.leaked {
 				return st
 			}
 			// a client that left at once may never have been served at all
-			if s.CutAt >= 0 && !st.Entered && st.TG == 0 && time.Since(deadline.Add(-total)) > time.Second {
+			if s.CutAt >= 0 && !st.Entered && st.TG <= c.leaked && time.Since(deadline.Add(-total)) > time.Second {
 				return st
 			}
 		} else if !c.alive() {
